@@ -159,6 +159,7 @@ def TABLES():
         out.append('def %s_targets : List String := [%s]' % (fn, ', '.join(extract.lean_str(t) for t in targets)))
         out.append('def %s_calls : List String := [%s]' % (fn, ', '.join(extract.lean_str(c) for c in calls)))
     out.extend(_fanout_tables(tree, dtree))
+    out.extend(_config_tables(tree, dtree))
     return out
 
 
@@ -241,6 +242,12 @@ def _fan_flatten(stmts, var, guards=()):
                 a = c.args[0]
                 res.append((g, 'logger.info', a.value if isinstance(a, ast.Constant) and isinstance(a.value, str) else '?'))
                 continue
+            if f.rsplit('.', 1)[-1] in ('warn', 'error', 'critical') and f.endswith('logger.' + f.rsplit('.', 1)[-1]) \
+                    and len(c.args) == 1 and not c.keywords:
+                # a message at a level every configuration of the activity log lets through; its text carries another
+                # level name than the logger's INFO format prefix, so it is never reproduced from the literal ("?")
+                res.append((g, 'logger.info', '?'))
+                continue
             if not c.args and not c.keywords:
                 res.append((g, 'call', f)); continue
         res.append((g, '?', ast.unparse(st).split('\n')[0][:80]))
@@ -271,8 +278,8 @@ def _fan_resolve(e, stmts):
     return ast.unparse(Sub().visit(copy.deepcopy(e)))
 
 
-def _fan_block(out, prefix, what, stmts, itertext, varname, context=()):
-    """a block `pre*; for <var> in <itertext>: body; post*` -> <prefix>_pre, <prefix>_body, <prefix>_post
+def _fan_lists(what, stmts, itertext, varname, context=()):
+    """a block `pre*; for <var> in <itertext>: body; post*` -> (pre, body, post, loop line) as flattened statements
     (the loop variable may have any name; `varname` is only what it is called in the comments)"""
     loops = [i for i, st in enumerate(stmts) if isinstance(st, ast.For)]
     if len(loops) != 1:
@@ -285,12 +292,119 @@ def _fan_block(out, prefix, what, stmts, itertext, varname, context=()):
     var = loop.target.id
     if loop.orelse:
         raise Untranslatable('%s: for ... else' % what)
-    pre = [st for st in stmts[:loops[0]]
-           if not (isinstance(st, ast.Assign) and len(st.targets) == 1 and isinstance(st.targets[0], ast.Name))]
-    out.extend(_fan_lean(prefix + '_pre', '%s: statements before the loop' % what, _fan_flatten(pre, None)))
-    out.extend(_fan_lean(prefix + '_body', '%s:%d  for %s in %s' % (what, loop.lineno, varname, itertext),
-                         _fan_flatten(loop.body, var)))
-    out.extend(_fan_lean(prefix + '_post', '%s: statements after the loop' % what, _fan_flatten(stmts[loops[0] + 1:], None)))
+    pre = [st for st in stmts[:loops[0]] if not _is_name_assign(st)]
+    return (_fan_flatten(pre, None), _fan_flatten(loop.body, var), _fan_flatten(stmts[loops[0] + 1:], None), loop.lineno)
+
+
+def _is_name_assign(st):
+    return isinstance(st, ast.Assign) and len(st.targets) == 1 and isinstance(st.targets[0], ast.Name)
+
+
+def _fan_block(out, prefix, what, stmts, itertext, varname, context=()):
+    pre, body, post, lineno = _fan_lists(what, stmts, itertext, varname, context)
+    out.extend(_fan_lean(prefix + '_pre', '%s: statements before the loop' % what, pre))
+    out.extend(_fan_lean(prefix + '_body', '%s:%d  for %s in %s' % (what, lineno, varname, itertext), body))
+    out.extend(_fan_lean(prefix + '_post', '%s: statements after the loop' % what, post))
+
+
+# ---------------------------------------------------------------------------------------------
+# partial evaluation: what a function does for one signal in one mood of the daemon
+# ---------------------------------------------------------------------------------------------
+def _supervisor_moods():
+    """[(name, value)] of states.SupervisorStates, by reading the source"""
+    tree = ast.parse(open(os.path.join(extract.REPO, 'supervisor/states.py')).read())
+    cls = [n for n in tree.body if isinstance(n, ast.ClassDef) and n.name == 'SupervisorStates']
+    if len(cls) != 1:
+        raise Untranslatable('states.py: class SupervisorStates expected')
+    res = []
+    for st in cls[0].body:
+        if isinstance(st, ast.Assign) and len(st.targets) == 1 and isinstance(st.targets[0], ast.Name):
+            try:
+                res.append((st.targets[0].id, int(ast.literal_eval(st.value))))
+            except (ValueError, TypeError):
+                raise Untranslatable('states.py: SupervisorStates.%s is not an integer literal' % st.targets[0].id)
+    if not res:
+        raise Untranslatable('states.py: SupervisorStates has no members')
+    return res
+
+
+def _static_test(test, env, what):
+    """True / False when `test` is decided by the substitution `env` (source text -> constant) alone, None when it
+    mentions nothing of env; a test that mixes env with anything else cannot be specialised"""
+    import copy, signal as _signal
+    hit = [False]
+    class Sub(ast.NodeTransformer):
+        def visit_Attribute(self, n):
+            t = ast.unparse(n)
+            for k, v in env.items():
+                if t == k or t.endswith('.' + k):
+                    hit[0] = True
+                    return ast.copy_location(ast.Constant(v), n)
+            if t.startswith('signal.SIG') and hasattr(_signal, n.attr):
+                return ast.copy_location(ast.Constant(int(getattr(_signal, n.attr))), n)
+            return self.generic_visit(n)
+        def visit_Name(self, n):
+            if n.id in env:
+                hit[0] = True
+                return ast.copy_location(ast.Constant(env[n.id]), n)
+            return n
+    new = Sub().visit(copy.deepcopy(test))
+    if not hit[0]:
+        return None
+    for n in ast.walk(new):
+        if isinstance(n, ast.Attribute) or (isinstance(n, ast.Name) and n.id not in ('isinstance', 'int', 'bool')) \
+                or (isinstance(n, ast.Call) and ast.unparse(n.func) not in ('isinstance', 'int', 'bool')):
+            raise Untranslatable('%s: test `%s` mixes the daemon mood / the signal with something else' % (what, ast.unparse(test)))
+    try:
+        return bool(eval(compile(ast.fix_missing_locations(ast.Expression(new)), '<test>', 'eval'),
+                         {'__builtins__': {}, 'isinstance': isinstance, 'int': int, 'bool': bool}))
+    except Exception as ex:
+        raise Untranslatable('%s: test `%s`: %s' % (what, ast.unparse(test), ex))
+
+
+def _specialise(stmts, env, what):
+    """the statements that remain when every `if` decided by env is replaced by the branch taken"""
+    import copy
+    res = []
+    for st in stmts:
+        if isinstance(st, ast.If):
+            v = _static_test(st.test, env, what)
+            if v is None:
+                st2 = copy.copy(st)
+                st2.body = _specialise(st.body, env, what)
+                st2.orelse = _specialise(st.orelse, env, what)
+                res.append(st2)
+            else:
+                res.extend(_specialise(st.body if v else st.orelse, env, what))
+        elif isinstance(st, (ast.For, ast.While)):
+            st2 = copy.copy(st)
+            st2.body = _specialise(st.body, env, what)
+            res.append(st2)
+        else:
+            res.append(st)
+    return res
+
+
+def _by_mood(name, typ, comment, per_mood, default):
+    """def <name> (mood : String) : <typ> -- a constant function when every mood has the same value"""
+    vals = [v for _, v in per_mood]
+    out = ['-- ' + comment]
+    if all(v == vals[0] for v in vals):
+        out.append('def %s (mood : String) : %s := %s' % (name, typ, vals[0]))
+    else:
+        chain = ''
+        for m, v in per_mood:
+            chain += 'if mood = %s then %s else ' % (extract.lean_str(m), v)
+        out.append('def %s (mood : String) : %s := %s%s' % (name, typ, chain, default))
+    return out
+
+
+def _fan_list_text(stmts):
+    def one(s):
+        g, act, arg = s
+        gs = ', '.join('(%s, %s, %s)' % ('true' if p else 'false', extract.lean_str(k), extract.lean_str(n)) for p, k, n in g)
+        return '⟨[%s], %s, %s⟩' % (gs, extract.lean_str(act), extract.lean_str(arg))
+    return '[%s]' % ', '.join(one(s) for s in stmts)
 
 
 def _fanout_tables(ltree, dtree):
@@ -340,13 +454,62 @@ def _fanout_tables(ltree, dtree):
         _fan_block(out, 'sp' + fn.capitalize(), 'Subprocess.' + fn, f.body, 'self.dispatchers.values()', 'dispatcher')
         f = find_func(ptree, 'ProcessGroupBase.' + fn)
         _fan_block(out, 'pg' + fn.capitalize(), 'ProcessGroupBase.' + fn, f.body, 'self.processes.values()', 'process')
-    # ---- Supervisor.handle_signal, the SIGUSR2 branch ---------------------------------------------------
+    # ---- Supervisor.handle_signal on SIGUSR2, in every mood of the daemon --------------------------------
+    # the function is specialised to sig = SIGUSR2 and to each mood (every `if` on the signal / the mood is replaced by
+    # the branch taken), so a mood guard anywhere on the way to the reopen calls shows in that mood's statements
+    import signal as _signal
+    moods = _supervisor_moods()
+    out.append('-- states.SupervisorStates: the moods of the daemon')
+    out.append('def supervisorMoods : List String := [%s]' % ', '.join(extract.lean_str(m) for m, _ in moods))
     stree = rd('supervisor/supervisord.py')
     f = find_func(stree, 'Supervisor.handle_signal')
-    branches = [n for n in ast.walk(f) if isinstance(n, ast.If) and ast.unparse(n.test) == 'sig == signal.SIGUSR2']
-    if len(branches) != 1:
-        raise Untranslatable('handle_signal: one `sig == signal.SIGUSR2` branch expected')
-    _fan_block(out, 'sigusr2', 'Supervisor.handle_signal[SIGUSR2]', branches[0].body, 'self.process_groups.values()', 'group')
+    per = []
+    for m, v in moods:
+        what = 'Supervisor.handle_signal[SIGUSR2, mood %s]' % m
+        try:
+            stmts = _specialise(f.body, {'sig': int(_signal.SIGUSR2), 'options.mood': v,
+                                         **{'SupervisorStates.' + k: kv for k, kv in moods}}, what)
+            stmts = [st for st in stmts if not (isinstance(st, ast.Expr) and isinstance(st.value, ast.Constant))]
+            if any(isinstance(st, ast.For) for st in stmts):
+                pre, body, post, _ = _fan_lists(what, stmts, 'self.process_groups.values()', 'group')
+                loops = True
+            else:
+                pre, body, post, loops = _fan_flatten([st for st in stmts if not _is_name_assign(st)], None), [], [], False
+        except Untranslatable as ex:
+            # keep the model buildable: this mood's statements are unknown ("?": the model answers `unmodelled`,
+            # the theorems about every mood fail)
+            out.append('-- NOT UNDERSTOOD %s' % str(ex).replace('\n', ' '))
+            pre, body, post, loops = [([], '?', str(ex)[:80])], [], [], False
+        per.append((m, pre, body, post, loops))
+    out.extend(_by_mood('sigusr2_pre', 'List FanStmt', 'Supervisor.handle_signal[SIGUSR2]: statements before the loop over the groups',
+                        [(m, _fan_list_text(p)) for m, p, _, _, _ in per], '[⟨[], "?", "unknown mood"⟩]'))
+    out.extend(_by_mood('sigusr2_body', 'List FanStmt', 'Supervisor.handle_signal[SIGUSR2]: for group in self.process_groups.values()',
+                        [(m, _fan_list_text(b)) for m, _, b, _, _ in per], '[]'))
+    out.extend(_by_mood('sigusr2_post', 'List FanStmt', 'Supervisor.handle_signal[SIGUSR2]: statements after the loop',
+                        [(m, _fan_list_text(p)) for m, _, _, p, _ in per], '[]'))
+    out.extend(_by_mood('sigusr2_loops', 'Bool', 'Supervisor.handle_signal[SIGUSR2]: is there a loop over the groups at all',
+                        [(m, 'true' if l else 'false') for m, _, _, _, l in per], 'false'))
+    # ---- rpcinterface._update: the moods in which every RPC method that begins with it is refused (SHUTDOWN_STATE) ----
+    f = find_func(rtree, 'SupervisorNamespaceRPCInterface._update')
+    refused = []
+    for m, v in moods:
+        stmts = _specialise(f.body, {'options.mood': v, **{'SupervisorStates.' + k: kv for k, kv in moods}},
+                            'SupervisorNamespaceRPCInterface._update[mood %s]' % m)
+        if any(isinstance(st, ast.Raise) for st in stmts):
+            refused.append(m)
+        elif any(isinstance(n, ast.Raise) for st in stmts for n in ast.walk(st)):
+            raise Untranslatable('_update: a raise under a condition that is not decided by the mood')
+    out.append('-- SupervisorNamespaceRPCInterface._update:%d  moods in which it raises' % f.lineno)
+    out.append('def rpcRefusedMoods : List String := [%s]' % ', '.join(extract.lean_str(m) for m in refused))
+    gated = []
+    for fn in ('clearLog', 'clearProcessLogs', 'clearAllProcessLogs'):
+        g = find_func(rtree, 'SupervisorNamespaceRPCInterface.' + fn)
+        body = [st for st in g.body if not (isinstance(st, ast.Expr) and isinstance(st.value, ast.Constant))]
+        if body and isinstance(body[0], ast.Expr) and isinstance(body[0].value, ast.Call) \
+                and ast.unparse(body[0].value.func) == 'self._update':
+            gated.append(fn)
+    out.append('-- RPC methods whose first statement is self._update(...)')
+    out.append('def rpcGated : List String := [%s]' % ', '.join(extract.lean_str(g) for g in gated))
     # ---- clearProcessLogs: the process it was asked about ------------------------------------------------
     f = find_func(rtree, 'SupervisorNamespaceRPCInterface.clearProcessLogs')
     calls = [ast.unparse(n.func) for n in ast.walk(f) if isinstance(n, ast.Call) and ast.unparse(n.func).startswith('process.')]
@@ -361,4 +524,255 @@ def _fanout_tables(ltree, dtree):
         else:
             raise Untranslatable('PEventListenerDispatcher.%s: `if self.childlog is not None:` expected' % fn)
         _fan_block(out, 'el' + fn.capitalize(), 'PEventListenerDispatcher.' + fn, body, 'self.childlog.handlers', 'handler')
+    return out
+
+
+# ---------------------------------------------------------------------------------------------
+# from the configured value to the handler's parameters
+#
+# "maxbytes" and "backups" of the property are what the operator wrote: `[supervisord] logfile_maxbytes / logfile_backups`
+# (or -y / -z on the command line) and `[program:x] stdout_/stderr_logfile_maxbytes / _backups`.  On the way to
+# RotatingFileHandler(maxBytes, backupCount) they pass: Options.realize (command line, priority), read_config (the file,
+# with its own defaults), Options.process_config ("Process defaults": which attribute values count as unset), make_logger /
+# the dispatchers (keyword arguments of handle_file, `rotating = not not maxbytes`), handle_file (constructor arguments).
+# Every one of these steps is dumped here; Model/LogFan.lean composes them (`actCfg`, `chanCfg`).
+# ---------------------------------------------------------------------------------------------
+def _const_int(e, what):
+    """an integer constant expression (50 * 1024 * 1024, long(1024), 10)"""
+    if isinstance(e, ast.Constant) and isinstance(e.value, int) and not isinstance(e.value, bool):
+        return e.value
+    if isinstance(e, ast.BinOp) and isinstance(e.op, (ast.Mult, ast.Add, ast.Sub)):
+        a, b = _const_int(e.left, what), _const_int(e.right, what)
+        return a * b if isinstance(e.op, ast.Mult) else a + b if isinstance(e.op, ast.Add) else a - b
+    if isinstance(e, ast.Call) and ast.unparse(e.func) in ('long', 'int') and len(e.args) == 1:
+        return _const_int(e.args[0], what)
+    raise Untranslatable('%s: integer constant expected: %s' % (what, ast.unparse(e)))
+
+
+def _byte_size_table():
+    tree = ast.parse(open(os.path.join(extract.REPO, 'supervisor/datatypes.py')).read())
+    for st in tree.body:
+        if isinstance(st, ast.Assign) and ast.unparse(st.targets[0]) == 'byte_size':
+            c = st.value
+            if isinstance(c, ast.Call) and ast.unparse(c.func) == 'SuffixMultiplier' and c.args and isinstance(c.args[0], ast.Dict):
+                return {k.value: _const_int(v, 'byte_size') for k, v in zip(c.args[0].keys, c.args[0].values)}
+    raise Untranslatable('datatypes.byte_size: SuffixMultiplier({...}) expected')
+
+
+def _byte_size_of(text, table, what):
+    if isinstance(text, int) and not isinstance(text, bool):
+        return text
+    if not isinstance(text, str):
+        raise Untranslatable('%s: default %r' % (what, text))
+    v = text.lower()
+    for suf, m in table.items():
+        if v.endswith(suf):
+            return int(v[:-len(suf)]) * m
+    return int(v)
+
+
+def _unset_test(test, subject, what):
+    """a test on one attribute value (None | an integer) -> Lean Bool expression over `v : Option Int`"""
+    t = ast.unparse(test)
+    if isinstance(test, ast.BoolOp):
+        op = ' && ' if isinstance(test.op, ast.And) else ' || '
+        return '(' + op.join(_unset_test(x, subject, what) for x in test.values) + ')'
+    if isinstance(test, ast.UnaryOp) and isinstance(test.op, ast.Not):
+        return '(!' + _unset_test(test.operand, subject, what) + ')'
+    if ast.unparse(test) == subject:
+        return '(v.isSome && v != some 0)'                     # Python truthiness of None / an integer
+    if isinstance(test, ast.Compare) and len(test.ops) == 1 and ast.unparse(test.left) == subject:
+        c = test.comparators[0]
+        if isinstance(c, ast.Constant) and c.value is None:
+            if isinstance(test.ops[0], (ast.Is, ast.Eq)): return 'v.isNone'
+            if isinstance(test.ops[0], (ast.IsNot, ast.NotEq)): return 'v.isSome'
+        if isinstance(c, ast.Constant) and isinstance(c.value, int) and not isinstance(c.value, bool):
+            if isinstance(test.ops[0], ast.Eq): return '(v == some (%d : Int))' % c.value
+            if isinstance(test.ops[0], ast.NotEq): return '(v != some (%d : Int))' % c.value
+    raise Untranslatable('%s: test `%s` on %s' % (what, t, subject))
+
+
+def _int_expr(e, env, what):
+    """an expression over the configured maxbytes / backups (env: source text -> Lean variable) -> (Lean text, 'int'|'bool')"""
+    t = ast.unparse(e)
+    if t in env:
+        return env[t], 'int'
+    if isinstance(e, ast.Constant) and isinstance(e.value, bool):
+        return ('true' if e.value else 'false'), 'bool'
+    if isinstance(e, ast.Constant) and isinstance(e.value, int):
+        return '(%d : Int)' % e.value, 'int'
+    def truthy(x):
+        tx, ty = _int_expr(x, env, what)
+        return tx if ty == 'bool' else '(%s != 0)' % tx
+    if isinstance(e, ast.UnaryOp) and isinstance(e.op, ast.Not):
+        return '(!%s)' % truthy(e.operand), 'bool'
+    if isinstance(e, ast.Call) and ast.unparse(e.func) == 'bool' and len(e.args) == 1:
+        return truthy(e.args[0]), 'bool'
+    if isinstance(e, ast.Compare) and len(e.ops) == 1:
+        a, ta = _int_expr(e.left, env, what)
+        b, tb = _int_expr(e.comparators[0], env, what)
+        if ta == tb == 'int':
+            op = e.ops[0]
+            if isinstance(op, ast.Eq): return '(%s == %s)' % (a, b), 'bool'
+            if isinstance(op, ast.NotEq): return '(%s != %s)' % (a, b), 'bool'
+            if isinstance(op, ast.Lt): return '(Sv.ilt %s %s)' % (a, b), 'bool'
+            if isinstance(op, ast.LtE): return '(Sv.ile %s %s)' % (a, b), 'bool'
+            if isinstance(op, ast.Gt): return '(Sv.ilt %s %s)' % (b, a), 'bool'
+            if isinstance(op, ast.GtE): return '(Sv.ile %s %s)' % (b, a), 'bool'
+    raise Untranslatable('%s: expression %s' % (what, t))
+
+
+def _handle_file_args(func, what, local_env):
+    """the rotating / maxbytes / backups arguments of the loggers.handle_file(...) call in `func`"""
+    calls = [n for n in ast.walk(func) if isinstance(n, ast.Call) and ast.unparse(n.func) == 'loggers.handle_file']
+    if len(calls) != 1:
+        raise Untranslatable('%s: exactly one loggers.handle_file(...) expected, found %d' % (what, len(calls)))
+    c = calls[0]
+    names = ['logger', 'filename', 'fmt', 'rotating', 'maxbytes', 'backups']
+    given = dict(zip(names, c.args))
+    for kw in c.keywords:
+        if kw.arg is None:
+            raise Untranslatable('%s: **kwargs in handle_file call' % what)
+        given[kw.arg] = kw.value
+    # single-assignment locals (maxbytes = getattr(config, '%s_logfile_maxbytes' % channel)) are substituted
+    env = {}
+    for st in ast.walk(func):
+        if _is_name_assign(st):
+            nm = st.targets[0].id
+            env[nm] = None if nm in env else st.value
+    def classify(e):
+        t = ast.unparse(e)
+        if isinstance(e, ast.Name) and env.get(e.id) is not None:
+            return classify(env[e.id])
+        for key, var in local_env:
+            if key in t and not isinstance(e, (ast.UnaryOp, ast.Compare, ast.BoolOp)) and (
+                    isinstance(e, ast.Attribute) or (isinstance(e, ast.Call) and ast.unparse(e.func) == 'getattr')):
+                return var
+        return None
+    class Sub(ast.NodeTransformer):
+        def generic_visit(self, n):
+            v = classify(n) if isinstance(n, (ast.Name, ast.Attribute, ast.Call)) else None
+            if v is not None:
+                return ast.copy_location(ast.Name(v, ast.Load()), n)
+            return ast.NodeTransformer.generic_visit(self, n)
+    import copy
+    res = {}
+    # what the callee uses when an argument is not given: handle_file's own defaults
+    defaults = {'rotating': ast.Constant(False), 'maxbytes': ast.Constant(0), 'backups': ast.Constant(0)}
+    for k in ('rotating', 'maxbytes', 'backups'):
+        e = Sub().visit(copy.deepcopy(given.get(k, defaults[k])))
+        res[k] = _int_expr(e, {'mb': 'mb', 'bk': 'bk'}, '%s: handle_file(%s=...)' % (what, k))
+    return res, c.lineno
+
+
+def _config_tables(ltree, dtree):
+    out = ['', '/-! from the configured value to the handler parameters -/']
+    otree = ast.parse(open(os.path.join(extract.REPO, 'supervisor/options.py')).read())
+    table = _byte_size_table()
+    # ---- Options.process_config, "Process defaults": which attribute values are replaced by the default ----
+    f = find_func(otree, 'Options.process_config')
+    loops = [n for n in ast.walk(f) if isinstance(n, ast.For) and ast.unparse(n.iter) == 'self.default_map.items()']
+    if len(loops) != 1 or not (isinstance(loops[0].target, ast.Tuple) and len(loops[0].target.elts) == 2):
+        raise Untranslatable('Options.process_config: one `for name, value in self.default_map.items()` expected')
+    nm, val = (ast.unparse(e) for e in loops[0].target.elts)
+    body = loops[0].body
+    if not (len(body) == 1 and isinstance(body[0], ast.If) and not body[0].orelse and len(body[0].body) == 1
+            and ast.unparse(body[0].body[0]) == 'setattr(self, %s, %s)' % (nm, val)):
+        raise Untranslatable('Options.process_config: defaults loop is not `if <test>: setattr(self, name, value)`')
+    out.append('-- Options.process_config:%d  if %s: setattr(self, name, value)   (v = the attribute: none = None)' % (
+        body[0].lineno, ast.unparse(body[0].test)))
+    out.append('def optDefaultApplies (v : Option Int) : Bool := %s' % _unset_test(body[0].test, 'getattr(self, %s)' % nm, 'defaults loop'))
+    # ---- Options._set and the priorities of command line / config file ------------------------------------
+    f = find_func(otree, 'Options._set')
+    ifs = [n for n in f.body if isinstance(n, ast.If)]
+    cur = [n for n in f.body if _is_name_assign(n) and n.targets[0].id == 'current']
+    if len(ifs) != 1 or len(cur) != 1 or ifs[0].orelse or not (
+            isinstance(cur[0].value, ast.Call) and ast.unparse(cur[0].value.func) == 'self.attr_priorities.get' and len(cur[0].value.args) == 2):
+        raise Untranslatable('Options._set: `current = self.attr_priorities.get(attr, d); if <test>: ...` expected')
+    t, ty = _int_expr(ifs[0].test, {'prio': 'prio', 'current': 'current'}, 'Options._set')
+    out.append('-- Options._set:%d  if %s: setattr(self, attr, value); self.attr_priorities[attr] = prio' % (ifs[0].lineno, ast.unparse(ifs[0].test)))
+    out.append('def optSetOverrides (prio current : Int) : Bool := %s' % t)
+    out.append('def optPrioUnset : Int := (%d : Int)' % _const_int(cur[0].value.args[1] if not isinstance(cur[0].value.args[1], ast.UnaryOp)
+                                                                  else ast.Constant(-_const_int(cur[0].value.args[1].operand, '_set')), '_set'))
+    def prio_of(func, what):
+        cs = [n for n in ast.walk(func) if isinstance(n, ast.Call) and ast.unparse(n.func) == 'self._set' and len(n.args) == 3]
+        return cs
+    rz = find_func(otree, 'Options.realize')
+    pc = find_func(otree, 'Options.process_config')
+    cli = [c for c in prio_of(rz, 'realize') if ast.unparse(c.args[1]) == 'arg']
+    fil = prio_of(pc, 'process_config')
+    if len(cli) != 1 or len(fil) != 1:
+        raise Untranslatable('Options.realize / process_config: one self._set(name, arg, p) / self._set(name, obj, p) each expected')
+    out.append('-- Options.realize:%d  %s ; Options.process_config:%d  %s' % (cli[0].lineno, ast.unparse(cli[0]), fil[0].lineno, ast.unparse(fil[0])))
+    out.append('def optPrioCli : Int := (%d : Int)' % _const_int(cli[0].args[2], 'realize'))
+    out.append('def optPrioFile : Int := (%d : Int)' % _const_int(fil[0].args[2], 'process_config'))
+    # ---- ServerOptions.__init__: self.add("logfile_maxbytes", ..., default=...) -------------------------------
+    f = find_func(otree, 'ServerOptions.__init__')
+    adds = {}
+    for n in ast.walk(f):
+        if isinstance(n, ast.Call) and ast.unparse(n.func) == 'self.add' and n.args and isinstance(n.args[0], ast.Constant):
+            adds[n.args[0].value] = n
+    for attr, lean in (('logfile_maxbytes', 'optMaxbytesDefault'), ('logfile_backups', 'optBackupsDefault')):
+        if attr not in adds:
+            raise Untranslatable('ServerOptions.__init__: no self.add(%r, ...)' % attr)
+        d = [kw.value for kw in adds[attr].keywords if kw.arg == 'default']
+        if len(d) != 1:
+            raise Untranslatable('ServerOptions.__init__: self.add(%r, ...) without default=' % attr)
+        out.append('-- ServerOptions.__init__:%d  self.add(%r, ..., default=%s)' % (adds[attr].lineno, attr, ast.unparse(d[0])))
+        out.append('def %s : Int := (%d : Int)' % (lean, _const_int(d[0], attr)))
+    # ---- ServerOptions.read_config: the [supervisord] section's own defaults ---------------------------------
+    f = find_func(otree, 'ServerOptions.read_config')
+    for attr, conv, lean in (('logfile_maxbytes', 'byte_size', 'fileMaxbytesDefault'), ('logfile_backups', 'integer', 'fileBackupsDefault')):
+        a = [n for n in ast.walk(f) if isinstance(n, ast.Assign) and ast.unparse(n.targets[0]) == 'section.' + attr]
+        ok = len(a) == 1 and isinstance(a[0].value, ast.Call) and ast.unparse(a[0].value.func) == conv and len(a[0].value.args) == 1
+        g = a[0].value.args[0] if ok else None
+        if not (ok and isinstance(g, ast.Call) and ast.unparse(g.func) == 'get' and len(g.args) == 2
+                and isinstance(g.args[0], ast.Constant) and g.args[0].value == attr and isinstance(g.args[1], ast.Constant)):
+            raise Untranslatable('read_config: section.%s = %s(get(%r, <default>)) expected' % (attr, conv, attr))
+        out.append('-- ServerOptions.read_config:%d  %s' % (a[0].lineno, ast.unparse(a[0])))
+        out.append('def %s : Int := (%d : Int)' % (lean, _byte_size_of(g.args[1].value, table if conv == 'byte_size' else {}, attr)))
+    # ---- ServerOptions.processes_from_section: the per-channel defaults ---------------------------------------
+    cls = [n for n in otree.body if isinstance(n, ast.ClassDef) and n.name == 'ServerOptions'][0]
+    cands = [n for n in cls.body if isinstance(n, ast.FunctionDef) and 'processes_from_section' in n.name]
+    f = ast.Module(body=cands, type_ignores=[])
+    for var, conv, lean in (('maxbytes', 'byte_size', 'progMaxbytesDefault'), ('backups', 'integer', 'progBackupsDefault')):
+        a = [n for n in ast.walk(f) if _is_name_assign(n) and n.targets[0].id == var]
+        ok = len(a) == 1 and isinstance(a[0].value, ast.Call) and ast.unparse(a[0].value.func) == conv and len(a[0].value.args) == 1
+        g = a[0].value.args[0] if ok else None
+        if not (ok and isinstance(g, ast.Call) and ast.unparse(g.func) == 'get' and len(g.args) >= 3 and isinstance(g.args[2], ast.Constant)):
+            raise Untranslatable('processes_from_section: %s = %s(get(section, key, <default>, ...)) expected' % (var, conv))
+        out.append('-- ServerOptions.processes_from_section:%d  %s' % (a[0].lineno, ast.unparse(a[0])))
+        out.append('def %s : Int := (%d : Int)' % (lean, _byte_size_of(g.args[2].value, table if conv == 'byte_size' else {}, var)))
+    # ---- the handle_file(...) calls: make_logger, POutputDispatcher._init_normallog, PEventListenerDispatcher.__init__ ----
+    for tree_, qual, lean in ((otree, 'ServerOptions.make_logger', 'makeLogger'), (dtree, 'POutputDispatcher._init_normallog', 'normallog'),
+                              (dtree, 'PEventListenerDispatcher.__init__', 'listenerlog')):
+        f = find_func(tree_, qual)
+        res, line = _handle_file_args(f, qual, (('maxbytes', 'mb'), ('backups', 'bk')))
+        for k, typ in (('rotating', 'bool'), ('maxbytes', 'int'), ('backups', 'int')):
+            tx, ty = res[k]
+            if ty != typ:
+                if typ == 'bool':
+                    raise Untranslatable('%s: rotating=%s is not a boolean (handle_file tests `rotating is False`)' % (qual, tx))
+                raise Untranslatable('%s: %s=%s is not an integer' % (qual, k, tx))
+        out.append('-- %s:%d  loggers.handle_file(..., rotating, maxbytes, backups) in terms of the configured mb / bk' % (qual, line))
+        out.append('def %s_rotating (mb bk : Int) : Bool := %s' % (lean, res['rotating'][0]))
+        out.append('def %s_maxbytes (mb bk : Int) : Int := %s' % (lean, res['maxbytes'][0]))
+        out.append('def %s_backups (mb bk : Int) : Int := %s' % (lean, res['backups'][0]))
+    # ---- loggers.handle_file -> RotatingFileHandler(filename, mode, maxBytes, backupCount) ---------------------
+    f = find_func(ltree, 'handle_file')
+    ctor = [n for n in ast.walk(f) if isinstance(n, ast.Call) and ast.unparse(n.func) == 'RotatingFileHandler']
+    init = find_func(ltree, 'RotatingFileHandler.__init__')
+    params = [a.arg for a in init.args.args][1:]
+    if len(ctor) != 1:
+        raise Untranslatable('handle_file: one RotatingFileHandler(...) expected')
+    given = dict(zip(params, (ast.unparse(a) for a in ctor[0].args)))
+    given.update({kw.arg: ast.unparse(kw.value) for kw in ctor[0].keywords})
+    stored = {}
+    for st in init.body:
+        if isinstance(st, ast.Assign) and ast.unparse(st.targets[0]) in ('self.maxBytes', 'self.backupCount'):
+            stored[ast.unparse(st.targets[0])[5:]] = ast.unparse(st.value)
+    for attr in ('maxBytes', 'backupCount'):
+        src = given.get(stored.get(attr), '?')
+        out.append('-- handle_file:%d / RotatingFileHandler.__init__: self.%s = %s <- %s' % (ctor[0].lineno, attr, stored.get(attr), src))
+        out.append('def handleFile_%sFrom : String := %s' % (attr, extract.lean_str(src)))
     return out
